@@ -23,6 +23,7 @@ import (
 func init() {
 	runners["C02"] = runC02
 	runners["C02-child"] = runC02Child
+	runners["C02-policy"] = func(_ string, res *Result) { c02PolicyIsOnlyRead(res) }
 }
 
 // C02: workloads of goroutines sharing one engine, executed on the real twig.Engine by a copy of this
@@ -578,7 +579,7 @@ func c02TopFrames(block []string) string {
 
 func runC02(cases string, res *Result) {
 	c02RegisterDuringLookup(res)
-	c02PolicyIsOnlyRead(res)
+	c02InAChild(cases, res, "C02-policy", "policy-is-only-read")
 	if !c02RaceEnabled {
 		res.add(Finding{Kind: "disagreement", Where: "runner", Case: map[string]string{"k": "build"},
 			Detail: "the runner was not built with -race (props/C02.json must say \"race\": true): the runtime part of C02 is not observed"})
@@ -838,5 +839,42 @@ func c02RegisterDuringLookup(res *Result) {
 				}
 			}
 		}
+	}
+}
+
+// c02InAChild runs one of the Go-side streams in a process of its own (this runner, race-enabled, started again): a race
+// report or a fatal runtime error is then read from the child's stderr and becomes a finding with the stream as its
+// input, instead of ending the runner.
+func c02InAChild(cases string, res *Result, runner, stream string) {
+	out := filepath.Join(filepath.Dir(cases), runner+".result.json")
+	os.Remove(out)
+	ctx, cancel := context.WithTimeout(context.Background(), 300*time.Second)
+	defer cancel()
+	cmd := exec.CommandContext(ctx, os.Args[0], runner, "-", out)
+	cmd.Env = append(os.Environ(), "GORACE=halt_on_error=0 exitcode=66", "GOMAXPROCS=16")
+	var stderr bytes.Buffer
+	cmd.Stderr = &stderr
+	cmd.Stdout = io.Discard
+	err := cmd.Run()
+	var child Result
+	if b, rerr := os.ReadFile(out); rerr == nil && json.Unmarshal(b, &child) == nil {
+		res.Evaluations += child.Evaluations
+		for k, v := range child.Hist {
+			res.Hist[k] += v
+		}
+		for _, f := range child.Findings {
+			res.add(f)
+		}
+	}
+	races, _, _, fatal := c02ParseStderr(stderr.String())
+	c := Case{"k": stream, "how": "the stream " + stream + " of harness/c02*.go, run on its own as `runner " + runner + " - out.json`"}
+	switch {
+	case len(races) > 0:
+		res.add(Finding{Kind: "oracle", Where: stream + "/race", Case: c, Expected: "no data race", Observed: fmt.Sprintf("%d race reports", len(races)),
+			Detail: "first report, top frames: " + races[0].frame + "\n" + clip(races[0].text)})
+	case fatal != "":
+		res.add(Finding{Kind: "oracle", Where: stream + "/fatal", Case: c, Expected: "the process survives", Observed: clip(fatal)})
+	case err != nil && len(child.Findings) == 0:
+		res.add(Finding{Kind: "oracle", Where: stream + "/child", Case: c, Expected: "the child process ends normally", Observed: err.Error() + ": " + clip(stderr.String())})
 	}
 }
